@@ -132,15 +132,20 @@ def project_vertices(verts, scale):
     return out, off
 
 
-def run_mc(n, f, k, sp, gd):
-    """One call of the real marching_cubes; returns the projected observation."""
+def run_mc(n, f, k, sp, gd, enc=None):
+    """One call of the real marching_cubes; returns the projected observation.
+    enc = {dtype, base, none}: the same field handed over as another array type, shifted by a constant (values f + base, level
+    k + 1/2 + base: the same surface), and - when the level is the middle of the value range - with the level left to the default."""
     import numpy as np
     from chmpy.mc import marching_cubes
-    vol = np.array(f, dtype=np.float32).reshape(n)
+    enc = enc or {}
+    base = int(enc.get("base", 0))
+    vol = (np.array(f, dtype=np.int64).reshape(n) + base).astype(getattr(np, enc.get("dtype", "float32")))
+    level = None if enc.get("none") else k + 0.5 + base
     r = {"exc": "", "offgrid": False, "nv": 0, "nf": 0, "V": [], "F": []}
     try:
         verts, faces, _normals, _values = marching_cubes(
-            vol, k + 0.5, spacing=tuple(float(s) for s in sp), gradient_direction=gd)
+            vol, level, spacing=tuple(float(s) for s in sp), gradient_direction=gd)
     except Exception as e:      # an exception of the implementation is an observation
         r["exc"] = type(e).__name__
         return r
@@ -180,11 +185,14 @@ def partition_by_cell(run, n, sp):
 def drive_mc(recipe):
     n, f, k, sp, gd = build_field(recipe)
     other = "ascent" if gd == "descent" else "descent"
-    run = run_mc(n, f, k, sp, gd)
+    enc = dict(recipe.get("enc") or {})
+    if enc.get("none") and min(f) + max(f) != 2 * k + 1:
+        enc["none"] = False                      # the default level is the middle of the range: only then is it the level k + 1/2
+    run = run_mc(n, f, k, sp, gd, enc)
     has_rev = bool(recipe.get("rev", True))
     t = {"kind": "mc", "n": n, "f": f, "k": k, "sp": sp, "q": Q, "tol": TOL, "gd": gd,
          "run": run, "has_rev": has_rev,
-         "rev": run_mc(n, f, k, sp, other) if has_rev else {"exc": "skipped", "offgrid": False, "nv": 0,
+         "rev": run_mc(n, f, k, sp, other, enc) if has_rev else {"exc": "skipped", "offgrid": False, "nv": 0,
                                                             "nf": 0, "V": [], "F": []},
          "cells": [], "ncellfaces": 0,
          "meta": {"recipe": recipe, "source": recipe["gen"],
@@ -328,7 +336,7 @@ def drive_surface(recipe):
     api = recipe["api"]
     seps = recipe["seps"]
     kind = "weight" if ("stockholder" in api or "hirshfeld" in api) else "rho"
-    iso = ISO[kind]
+    iso = float(recipe.get("iso", ISO[kind]))
     systems = []          # (own_els, own_pos(float), own_int, nbr_els, nbr_pos(float), nbr_int)
     crystal = None
     if recipe["src"].startswith("cif:") or recipe["src"].startswith("crystal:"):
@@ -454,6 +462,14 @@ def cube_recipes(ctx):
                 out.append({"kind": "mc", "gen": "cube", "vals": vals, "k": k,
                             "gd": "descent" if (pat + k) % 2 else "ascent",
                             "sp": [1, 1, 1] if pat % 3 else [rng.randint(1, 4) for _ in range(3)]})
+                if pat % 5 == 0:
+                    # other array types for the same field (image data: uint8 with a background, int16, float64 ...)
+                    out[-1]["enc"] = rng.choice([{"dtype": "uint8", "base": rng.choice([0, 100, 126, 127, 200, 252])},
+                                                 {"dtype": "int8", "base": rng.choice([-128, -3, 62, 63, 124])},
+                                                 {"dtype": "int16", "base": rng.choice([-32768, 0, 16382, 16383, 32764])},
+                                                 {"dtype": "float64", "base": rng.choice([0, -7, 1000])},
+                                                 {"dtype": "int64", "base": rng.choice([0, 5])}])
+                    out[-1]["enc"]["none"] = True
     else:
         for code in range(4 ** 8):
             vals = [(code >> (2 * b)) & 3 for b in range(8)]
@@ -482,14 +498,23 @@ def surface_recipes(ctx):
     for i in range(nsyn):
         seed = ctx.seed * 1009 + 100 + i
         mols.append(("synthetic-molecule(seed=%d)" % seed, synth_molecule(seed, 3 + (i * 5 + ctx.seed) % 6)))
+    # straight rods along each Cartesian axis (the sampling box is much longer in one direction than in the others)
+    for ax in range(3):
+        pos = [[1 + (130 * i if a == ax else 0) for a in range(3)] for i in range(6 + ax % 2)]
+        mols.append(("rod-%s" % "xyz"[ax], {"els": [6] * len(pos), "pos": pos}))
     out = []
-    for name, m in mols:
+    for mi, (name, m) in enumerate(mols):
         for api in ("surface.promolecule_density_isosurface", "Molecule.promolecule_density_isosurface"):
             out.append({"kind": "surface", "api": api, "src": name, "mol": m, "seps": seps})
+            if mi % 2 == 0:
+                # a level other than the default, through the function and through the object method
+                out.append({"kind": "surface", "api": api, "src": name, "mol": m, "seps": seps, "iso": (0.01, 0.005)[(mi // 2) % 2]})
         out.append({"kind": "surface", "api": "surface.stockholder_weight_isosurface", "src": name + " in a 5x5x5 lattice of copies",
                     "mol": m, "env": dense_environment(m, ctx.seed + 7), "seps": seps})
     for api in ("Crystal.hirshfeld_surfaces", "Crystal.promolecule_density_isosurfaces"):
         out.append({"kind": "surface", "api": api, "src": "cif:acetic_acid.cif", "seps": seps})
+    out.append({"kind": "surface", "api": "Crystal.promolecule_density_isosurfaces", "src": "cif:acetic_acid.cif", "seps": seps, "iso": 0.008})
+    out.append({"kind": "surface", "api": "Crystal.hirshfeld_surfaces", "src": "cif:acetic_acid.cif", "seps": seps, "iso": 0.4})
     for i in range(ctx.pick(1, 3)):
         seed = ctx.seed * 31 + 500 + i
         mol, cell = synth_crystal(seed, 4 + i)
